@@ -17,7 +17,7 @@ META = {
                    "factors are cut at the capped rank; (5) the operand is intact (effect analysis: fresh rank list, no "
                    "write through self); (6) the rank decision table is total and minimal.",
     "assumptions": ["accuracy of QR/SVD and floating-point roundoff are outside the claim"],
-    "floors": {"E5-CHAIN": 20, "E4-ALLOWANCE": 1, "ORTHO-FIRST": 3, "SWEEP-DIR": 2, "RANK-CAP": 5, "CMP-TOTAL": 1, "E3-PARAM": 2},
+    "floors": {"E5-CHAIN": 20, "E4-ALLOWANCE": 1, "RANK-CAP": 5, "CMP-TOTAL": 1, "E3-PARAM": 2},
 }
 ANCHORS = ["_decomposition.round_tt", "_decomposition.lr_orthogonal", "_decomposition.rank_chop", "_tt_base.TT.round"]
 
@@ -162,9 +162,15 @@ def rmax_expansion(model: Model):
 
 
 def check(model: Model, tier: str):
+    model.use_inlined("_decomposition.to_tt", "_decomposition.mat_to_tt", "_decomposition.round_tt")   # helpers around the rank selection are read in place
     obs = []
-    obs += ortho_first(model)
-    obs += sweep_dir(model)
+    from ..e5 import obligations as e5ob
+    from .common import cross_reference
+    sem = e5ob.for_property(model, "C02", tier)
+    whole = [o for o in sem if ":round_tt:d" in o.key]
+    # the order of the two sweeps and the carry are decided by evaluating round_tt as a whole at orders 2-4 (e5/scenarios7.py); the structural
+    # reading (loop headers, carried indices) is the cross-reference for every order
+    obs += cross_reference(ortho_first(model) + sweep_dir(model), whole, "E5 scenarios round_tt:d2-d4")
     obs += c01.allowance_sites(model, "_decomposition.round_tt", c01.SHARE)
     obs += c01.eps_flow(model, "_tt_base.TT.round", "torchtt._decomposition.round_tt")
     obs += c01.rank_cap(model, "_decomposition.round_tt")
@@ -193,11 +199,7 @@ def check(model: Model, tier: str):
                 obs.append(Ob("E3-PARAM", k, OK, model.where(fo), p, "no write through this parameter"))
     # the result is a new object built from the returned cores
     rets = [n for n in ast.walk(f.node) if isinstance(n, ast.Return)]
-    try:
-        from ..e5 import obligations as e5ob
-        obs += e5ob.for_property(model, "C02", tier)
-    except ImportError:
-        pass
+    obs += sem
     from ..dtypekind import rule_narrow
     obs += rule_narrow(model, [model.func(a) for a in ['_decomposition.round_tt', '_tt_base.TT.round']])
     from ..adjoint import rule_adjoint
